@@ -56,6 +56,10 @@ func runMultiOnce(c Case) (res obs.Result, raced bool) {
 	res.Kind = "multi"
 	version := gen.Pick(r, []string{"7.2.4", "7.2.4", "8.0.0"})
 	nprim := r.Range(2, 4)
+	x := c.Mu
+	if x != nil {
+		version, nprim = "7.2.4", 3
+	}
 	l := newLive(r, version, nprim, false)
 	tx := r.Chance(2, 5)
 	if tx {
@@ -98,12 +102,41 @@ func runMultiOnce(c Case) (res obs.Result, raced bool) {
 			cmds = append(cmds, mk(gen.Pick(r, slots)))
 		}
 	}
+	if x != nil {
+		// enumerated case: the batch is given by the description
+		slots = []int{slots[0], (slots[0] + 8192) % 16384}
+		cmds, tx, mixed = nil, false, false
+		for _, t := range strings.Fields(x.Batch) {
+			switch {
+			case t == "M":
+				tx = true
+				cmds = append(cmds, bcmd{argv: []string{"MULTI"}, slot: -1, kind: "multi"})
+			case t == "E":
+				cmds = append(cmds, bcmd{argv: []string{"EXEC"}, slot: -1, kind: "exec"})
+			default:
+				slot := slots[int(t[1]-'0')%2]
+				key := fmt.Sprintf("{%s}k%d", fc.TagFor(slot), len(cmds))
+				if t[0] == 'g' {
+					cmds = append(cmds, bcmd{argv: []string{"GET", key}, slot: slot, kind: "plain", retryable: true})
+				} else {
+					cmds = append(cmds, bcmd{argv: []string{"SET", key, fmt.Sprintf("v%d", len(cmds))}, slot: slot, kind: "plain"})
+				}
+			}
+		}
+		res.Kind = "multi-x"
+		if tx {
+			res.Kind = "multi-tx-x"
+		}
+	}
 	for i := range cmds {
 		cmds[i].id = i + 1
 	}
 	maxRedir := gen.Pick(r, []int{0, 0, 0, 1, 2})
 	disableRetry := r.Chance(1, 5)
 	delays := genDelays(r)
+	if x != nil {
+		maxRedir, disableRetry, delays = x.Max, false, []int64{0, 0, 0}
+	}
 	dlog := &ro.ConsultLog{}
 	cli, err := rueidis.NewClient(rueidis.ClientOption{InitAddress: []string{l.prims[0]}, DialCtxFn: l.cl.Dial, DisableCache: true, PipelineMultiplex: -1,
 		DisableRetry: disableRetry, RetryDelay: delayFn(delays, dlog, l.cl), ClusterOption: rueidis.ClusterOption{MaxMovedRedirections: maxRedir}})
@@ -117,6 +150,9 @@ func runMultiOnce(c Case) (res obs.Result, raced bool) {
 	ntopo := len(topos)
 	// the world moves on
 	for _, s := range slots {
+		if x != nil {
+			break
+		}
 		switch r.Intn(5) {
 		case 0:
 			l.cl.MoveSlot(s, gen.Pick(r, l.prims))
@@ -128,8 +164,21 @@ func runMultiOnce(c Case) (res obs.Result, raced bool) {
 	}
 	// per-command reactions (reply level only: a killed connection would also fail its neighbours)
 	scripts := map[int]string{}
+	if x != nil && x.At >= 0 && x.At < len(cmds) && cmds[x.At].kind != "multi" {
+		slot := cmds[x.At].slot
+		if slot < 0 {
+			slot = slots[0]
+		}
+		o := indexOf(l.prims, given[slot])
+		st := []fc.Step{{Kind: x.Step, Addr: l.prims[(o+1)%nprim]}}
+		if x.Next != "" {
+			st = append(st, fc.Step{Kind: x.Next, Addr: l.prims[(o+2)%nprim]})
+		}
+		l.cl.SetScript(cmds[x.At].argv, st...)
+		scripts[x.At] = stepsDesc(st)
+	}
 	for i, b := range cmds {
-		if r.Chance(1, 3) {
+		if x == nil && r.Chance(1, 3) {
 			st := genSteps(r, l, r.Range(1, 2), false)
 			if b.kind == "multi" {
 				continue
